@@ -28,6 +28,11 @@ type SeqCfg struct {
 	IDSweep    bool // after every write, FindById for every id ever used (C12)
 	SharedIDs  bool // collections reuse the same ids
 	MaxDocsForQueries int
+	CritPct, SortPct, WinPct int
+	IDStyles   bool // draw ids random / clustered / sequential per case
+	ForceFields map[string]gen.Profile
+	BigPad     bool
+	AuditAfterIndexOps bool
 }
 
 var baseWeights = map[string]int{
@@ -55,6 +60,8 @@ type seqRun struct {
 	cfg    *SeqCfg
 	r      *gen.Rng
 	pool   []string // shared id pool (SharedIDs)
+	idStyle int
+	idSeq   int
 	opKeys []string
 	opW    []int
 }
@@ -102,7 +109,27 @@ func (d *seqRun) freshID() string {
 	if d.cfg.SharedIDs && len(d.pool) > 0 && d.r.P(70) {
 		return gen.Pick(d.r, d.pool)
 	}
+	switch d.idStyle {
+	case 1: // clustered: a common prefix
+		return "aaaaaaaa-bbbb-4ccc-8ddd-" + d.r.UUID()[24:]
+	case 2: // sequential
+		d.idSeq++
+		return fmt.Sprintf("00000000-0000-4000-8000-%012x", d.idSeq)
+	}
 	return d.r.UUIDMaybeUpper()
+}
+
+func (d *seqRun) newSchema() *gen.Schema {
+	var s *gen.Schema
+	if d.cfg.ForceFields != nil {
+		s = d.r.SchemaWith(d.cfg.ForceFields)
+	} else {
+		s = d.r.Schema()
+	}
+	if d.cfg.BigPad {
+		s.Pad = gen.Pick(d.r, []int{0, 40, 300, 600})
+	}
+	return s
 }
 
 var malformedIDs = []any{"not-a-uuid", "12345678-1234-1234-1234-12345678901", "g2345678-1234-1234-1234-123456789012", int64(5), true, "12345678-1234-1234-1234-1234567890123", " 2345678-1234-1234-1234-123456789012"}
@@ -176,7 +203,8 @@ func (d *seqRun) pickQuery(coll string) *model.Query {
 		n = len(mc.Docs)
 		bias = mc.IndexList()
 	}
-	return d.r.Query(&gen.QueryCtx{Crit: d.critCtx(coll), Coll: coll, N: n, SortBias: bias})
+	return d.r.Query(&gen.QueryCtx{Crit: d.critCtx(coll), Coll: coll, N: n, SortBias: bias,
+		CritPct: d.cfg.CritPct, SortPct: d.cfg.SortPct, WinPct: d.cfg.WinPct})
 }
 
 func (d *seqRun) pickUpd(coll string, bulkFunc bool) *Upd {
@@ -241,7 +269,7 @@ func (d *seqRun) step() (written string, wasWrite bool) {
 	switch op {
 	case "CreateCollection":
 		name := gen.Pick(d.r, collNames)
-		sch := d.r.Schema()
+		sch := d.newSchema()
 		if d.cfg.SharedIDs {
 			// collections share one schema half of the time so that criteria hit everywhere
 			if n, ok := d.existingColl(); ok && d.r.Bool() {
@@ -254,7 +282,7 @@ func (d *seqRun) step() (written string, wasWrite bool) {
 		name := d.pickColl()
 		d.DropCollection(name)
 		if d.r.P(50) && !d.failed { // drop followed by re-creation under the same name
-			d.CreateCollection(name, d.r.Schema())
+			d.CreateCollection(name, d.newSchema())
 			if mc := d.coll(name); mc != nil && !d.failed {
 				d.CompareCollection(name, "recreate:not-empty", "DropCollection+CreateCollection")
 				d.ListIndexes(name)
@@ -450,6 +478,7 @@ func RunSeq(c *core.Ctx, cfg *SeqCfg) {
 	}
 	defer h.Destroy()
 	d := &seqRun{S: NewS(c, h), cfg: cfg, r: r}
+	d.opCells = cfg.Focus == "ids" || cfg.Focus == "colls" || cfg.Focus == "indexes"
 	for k := range cfg.W {
 		if strings.HasSuffix(k, "Pct") {
 			continue
@@ -471,10 +500,13 @@ func RunSeq(c *core.Ctx, cfg *SeqCfg) {
 	r.Shuffle(len(names), func(i, j int) { names[i], names[j] = names[j], names[i] })
 	var shared *gen.Schema
 	if cfg.SharedIDs {
-		shared = r.Schema()
+		shared = d.newSchema()
+	}
+	if cfg.IDStyles {
+		d.idStyle = r.Intn(3)
 	}
 	for i := 0; i < ncoll && !d.failed; i++ {
-		sch := r.Schema()
+		sch := d.newSchema()
 		if shared != nil && r.Bool() {
 			sch = shared
 		}
@@ -539,6 +571,9 @@ func RunSeq(c *core.Ctx, cfg *SeqCfg) {
 					}
 				}
 			}
+		}
+		if cfg.AuditAfterIndexOps && !d.failed && (strings.HasPrefix(lastOp, "CreateIndex") || strings.HasPrefix(lastOp, "DropIndex")) {
+			d.AuditBehaviour()
 		}
 		nextAudit--
 		if nextAudit <= 0 && !d.failed {
